@@ -116,6 +116,9 @@ def main(tier):
              'raid/raid_base.c:gf8poly/bit7/notbit0', 'SWAR constants are %#x/%#x/%#x, expected 0x1d/0x80/0xfe replicated over %d bytes' % (v['gf8poly'], v['bit7'], v['notbit0'], w),
              sample='gf8poly = 0x1d x%d' % w)
     check_base_exits(rep)
+    import bounds
+    bounds.check_src_cover(rep, 22)
+    bounds.check(rep, {'raid_pq_gen', 'raid_pq_check'}, 'RAID', 5)
     return rep.finish()
 
 
